@@ -21,7 +21,7 @@
    the programs on which the current Blackbird round trip is not the identity. *)
 From Coq Require Import List ZArith Bool.
 Import ListNotations.
-From SFV Require Import C14.Model C14.Proofs C14.Refuted C14.Converse.
+From SFV Require Import C14.Model C14.Proofs C14.Refuted C14.Converse C14.Decl.
 
 Theorem C14_bb_roundtrip : forall p : prog, bb_prog_ok p = true -> bb_roundtrip p = Ok p.
 Proof. exact bb_roundtrip_ok. Qed.
@@ -30,6 +30,26 @@ Print Assumptions C14_bb_roundtrip.
 Theorem C14_xir_roundtrip : forall p : prog, xir_prog_ok p = true -> xir_roundtrip p = Ok p.
 Proof. exact xir_roundtrip_ok. Qed.
 Print Assumptions C14_xir_roundtrip.
+
+(* to_xir(add_decl=...): the declarations written next to the statements change neither the statement list nor what is
+   loaded; gate declarations are duplicate-free and are exactly the applied non-measurement classes *)
+Theorem C14_xir_add_decl_roundtrip :
+  forall (add_decl : bool) (p : prog), xir_prog_ok p = true -> xir_roundtrip_opt add_decl p = Ok p.
+Proof. exact xir_roundtrip_opt_ok. Qed.
+Print Assumptions C14_xir_add_decl_roundtrip.
+
+Theorem C14_xir_add_decl_same_statements :
+  forall (add_decl : bool) (p : prog), xstmts (xprog_of (to_xir_opt add_decl p)) = xstmts (to_xir p).
+Proof. exact xir_statements_same. Qed.
+Print Assumptions C14_xir_add_decl_same_statements.
+
+Theorem C14_xir_gate_declarations :
+  forall p : prog,
+    NoDup (map gname (xgate_decls (to_xir_opt true p)))
+    /\ (forall c, In c (pcirc p) -> is_meas (cls c) = false -> In (cls c) (map gname (xgate_decls (to_xir_opt true p))))
+    /\ (forall g, In g (xgate_decls (to_xir_opt true p)) -> exists c, In c (pcirc p) /\ cls c = gname g /\ is_meas (cls c) = false).
+Proof. exact gate_decls_sound. Qed.
+Print Assumptions C14_xir_gate_declarations.
 
 (* the Blackbird hypotheses are also necessary: on well-formed programs (parameters are values a Program can hold;
    a Fouriergate carries its parameter) the current object-level round trip is the identity exactly on bb_prog_ok *)
